@@ -85,14 +85,29 @@ def type_text(t):
     return t[1]
 
 
+ALIAS_MODE = None      # None: about one member in three; 'all': every member through a two-level typedef; 'none'
+
+
+def to_prophy_aliased(t, mode='all'):
+    """the schema text with every member type behind a typedef chain (rules must not depend on the indirection)"""
+    global ALIAS_MODE
+    old, ALIAS_MODE = ALIAS_MODE, mode
+    try:
+        return to_prophy(t)
+    finally:
+        ALIAS_MODE = old
+
+
 def alias_chain(owner, fname, t):
     """typedef aliases the text printer puts on a member's type. Deterministic in the names (so every
     printing of one schema is the same text): about one member in three gets a chain of 1..3 typedefs
     declared right before the composite that uses it. Typedefs are transparent for layout, values and
     the API, so nothing else in the harness knows about them; the Coq terms see the target type."""
-    if os.environ.get("VERIF_NO_TYPEDEFS") or t[0] == 'byte':
+    if os.environ.get("VERIF_NO_TYPEDEFS") or t[0] == 'byte' or ALIAS_MODE == 'none':
         return []
     h = zlib.crc32(("%s.%s" % (owner, fname)).encode())
+    if ALIAS_MODE == 'all':
+        return ["Td_%s_%s%s" % (owner, fname, "" if j == 0 else "_%d" % j) for j in range(2)]
     if h % 3 != 0:
         return []
     depth = 1 + (h // 3) % 3
@@ -373,6 +388,30 @@ def exhaustive_small(k, with_last=True):
         for ll, lspec, lt in ls:
             n += 1
             yield ll, mk_struct('S%d' % n, [('z', lspec, lt)])
+
+
+def special_shapes():
+    """hand-picked shapes the two generators reach rarely: explicit counters of every integer type (signed ones
+    included: prophyc accepts them), a counter shared by two arrays, a counter separated from its array, limited
+    arrays of structs, a struct of nothing but an optional, unions of unions"""
+    out = []
+    for it in INTS:
+        out.append(('sizer_%s' % it, mk_struct('Z%s' % it, [('n', 'plain', scalar(it)), ('x', ('ext', 'n'), scalar('u16')),
+                                                            ('t', 'plain', scalar('u8'))])))
+    out.append(('sizer_shared', mk_struct('Zsh', [('n', 'plain', scalar('u8')), ('a', ('ext', 'n'), scalar('u8')),
+                                                  ('b', ('ext', 'n'), scalar('u32'))])))
+    out.append(('sizer_far', mk_struct('Zfar', [('n', 'plain', scalar('u16')), ('k', 'plain', scalar('u64')),
+                                                ('o', 'opt', scalar('u16')), ('x', ('ext', 'n'), scalar('u32')),
+                                                ('y', 'plain', scalar('u8'))])))
+    P = mk_struct('Zp', [('a', 'plain', scalar('u16')), ('b', 'plain', scalar('u8'))])
+    out.append(('lim_struct', mk_struct('Zls', [('h', 'plain', scalar('u8')), ('x', ('limited', 3), P), ('t', 'plain', scalar('u32'))])))
+    out.append(('only_opt', mk_struct('Zoo', [('o', 'opt', scalar('u8'))])))
+    U1 = mk_union('Zu1', [(1, 'a', scalar('u8')), (2, 'b', scalar('u32'))])
+    U2 = mk_union('Zu2', [(5, 'u', U1), (9, 'w', scalar('u64'))])
+    out.append(('union_of_union', mk_struct('Zuu', [('p', 'plain', scalar('u8')), ('u', 'plain', U2), ('q', 'plain', scalar('u8'))])))
+    Pn = mk_struct('Zpn', [('m', 'plain', P), ('f', ('fixed', 2), scalar('u16')), ('w', 'plain', U1)])
+    out.append(('dyn_nested_fixed', mk_struct('Zdn', [('x', 'dyn', Pn), ('l', ('limited', 2), Pn)])))
+    return out
 
 
 def wrappers(label, st, nm):
